@@ -82,3 +82,63 @@ def bounded_lemma(lem, seed, budget=60000, seconds=20.0):
         if f is not None:
             return {"ran": True, "evaluations": evals, "fail": f}
     return {"ran": True, "evaluations": evals, "fail": None, "domain": "grid %s^%d + random to 2^64" % (len(doms[0]) if doms else 0, n)}
+
+
+# ---------------------------------------------------------------------------------------------------------
+# guarded execution: native evaluation of the real code on generated inputs can hang in an uninterruptible C call (e.g. `1 << n` for an
+# astronomically large n taken from an edge-value grid) or allocate without bound; it therefore runs in a forked child process with
+# a wall-clock limit and an address-space cap, and is killed when it exceeds them.  A killed run is 'not run', never a verdict.
+
+
+def guarded(fn, args, seconds, grace=20.0, mem_gb=6):
+    import multiprocessing as mp
+    import os
+    import resource
+
+    ctx = mp.get_context("fork")
+    rd, wr = ctx.Pipe(duplex=False)
+
+    def child():
+        try:
+            try:
+                import psutil  # noqa: F401
+            except Exception:
+                pass
+            try:
+                with open("/proc/self/statm") as f:
+                    cur = int(f.read().split()[0]) * os.sysconf("SC_PAGE_SIZE")
+                lim = cur + int(mem_gb * (1 << 30))
+                resource.setrlimit(resource.RLIMIT_AS, (lim, lim))
+            except Exception:
+                pass
+            r = fn(*args)
+            if isinstance(r, dict) and r.get("fail") is not None and hasattr(r["fail"], "as_dict"):
+                r = dict(r, fail=r["fail"].as_dict())
+            try:
+                wr.send(("ok", r))
+            except Exception as e:  # unpicklable result
+                wr.send(("ok", {"ran": False, "reason": "unpicklable result of the native run: %r" % (e,), "evaluations": 0, "fail": None}))
+        except MemoryError:
+            wr.send(("ok", {"ran": False, "reason": "native run hit the address-space cap", "evaluations": 0, "fail": None}))
+        except BaseException as e:  # noqa
+            wr.send(("err", repr(e)))
+        finally:
+            os._exit(0)
+
+    p = ctx.Process(target=child)
+    p.start()
+    wr.close()
+    out = None
+    if rd.poll(seconds + grace):
+        try:
+            out = rd.recv()
+        except EOFError:
+            out = None
+    if p.is_alive():
+        p.kill()
+    p.join(5)
+    if out is None:
+        return {"ran": False, "reason": "native run killed after %.0f s (an evaluation did not return)" % (seconds + grace), "evaluations": 0, "fail": None}
+    if out[0] == "err":
+        return {"ran": False, "reason": "native runner error " + out[1], "evaluations": 0, "fail": None}
+    return out[1]
